@@ -1367,4 +1367,50 @@ theorem truncateStop_shape (pieces : List Bytes) (stop : Bytes) :
     unfold truncateStop
     simp only [h]
 
+/-! ## J. other sequences in the batch do not matter -/
+
+theorem skipCalls_cases (limit : Int) (st : St) (k : Nat) :
+    skipCalls limit st k = st ∨
+    ((limit > 0 ∧ (st.numPredicted : Int) ≥ limit) ∧ skipCalls limit st k = st.finish .length .limit) := by
+  induction k with
+  | zero => left; rfl
+  | succ k ih =>
+    unfold skipCalls
+    split
+    · rename_i h; right; exact ⟨h, rfl⟩
+    · exact ih
+
+/-- **Batch-mates do not matter.**  However many calls of processBatch pass in which the sequence is
+    not sampled (because of other sequences in the batch), it ends in the state `run` computes. -/
+theorem runSkips_eq_run (pinned : Bool) (limit : Int) (stops : List Bytes) :
+    ∀ (evs : List Ev) (st : St) (skips : List Nat), st.done = none →
+      runSkips pinned limit stops st skips evs = run pinned limit stops st evs := by
+  intro evs
+  induction evs with
+  | nil =>
+    intro st skips hd
+    unfold runSkips run
+    rcases skipCalls_cases limit st (skips.headD 0) with h | ⟨hl, h⟩
+    · simp only [h, hd, Option.isSome_none, Bool.false_eq_true, if_false]
+    · simp only [h, finish_done, Option.isSome_some, if_true, hl, and_self]
+  | cons ev rest ih =>
+    intro st skips hd
+    unfold runSkips run
+    rcases skipCalls_cases limit st (skips.headD 0) with h | ⟨hl, h⟩
+    · simp only [h, hd, Option.isSome_none, Bool.false_eq_true, if_false]
+      split
+      · rfl
+      · cases ev with
+        | eos => rfl
+        | piece p =>
+          simp only
+          split
+          · rfl
+          · rename_i hdone
+            apply ih
+            cases h' : (stepPiece pinned stops st p).done with
+            | none => rfl
+            | some r => rw [h'] at hdone; simp at hdone
+    · simp only [h, finish_done, Option.isSome_some, if_true, hl, and_self]
+
 end OllamaVerif.Stop
